@@ -192,6 +192,12 @@ class Source(object):
         log_flux[r] = np.log10(self.flux[r]) - 0.5 * (self.error[r] / self.flux[r]) ** 2. / np.log(10.)
         log_error[r] = np.abs(self.error[r] / self.flux[r]) / np.log(10.)
 
+        # Points that are only plotted carry zero weight but their values are
+        # still multiplied by it, so make sure placeholders (e.g. -999) don't
+        # turn into NaN/Inf which would propagate to every fit result
+        log_flux[r & ~np.isfinite(log_flux)] = 0.
+        log_error[r & ~np.isfinite(log_error)] = 0.
+
         return weight, log_flux, log_error
 
     def __str__(self):
